@@ -12,6 +12,7 @@ alignment, overlap; never write outside the destination.
 import concurrent.futures
 import json
 import os
+import re
 import subprocess
 import threading
 
@@ -293,6 +294,18 @@ def model_level(chk, tier):
                                                 "what": "CellJudge = RunJudge for every run list (<= 3 runs) and every memmove/memset call on a scaled arena"}
 
 
+def action_coverage(chk, module, cfgs):
+    """DESIGN 3.3 (3): tlc -coverage 1 on exhaustive configurations; an action that never fires is listed."""
+    counts = {}
+    for cfg in cfgs:
+        res = core.run_tlc(module, cfg, workers=4, timeout=3000, xmx="4g", coverage=True)
+        for m in re.finditer(r"^<(\w+) line \d+, col \d+ to line \d+, col \d+ of module \w+>: (\d+):(\d+)", res.out, re.M):
+            if m.group(1) not in ("Init",):
+                counts[m.group(1)] = counts.get(m.group(1), 0) + int(m.group(3))
+    chk.extra["action_coverage"] = counts
+    chk.extra["actions_not_exercised"] = sorted(a for a, n in counts.items() if n == 0)
+
+
 def run(tier):
     chk = core.Check("C08", tier, "exploration")
     # the model-level work (transcription vs definition, run-judgement lemma) runs next to the probe work
@@ -378,6 +391,8 @@ def run(tier):
             chk.sample({"build": build, "plan": tag, "line": json.dumps(calls[len(calls) // 2])[:400]})
     model_future.result()
     bg.shutdown()
+    if not quick:
+        action_coverage(chk, "MemAlg.tla", ["MemAlg_w4.cfg"])
     chk.nontrivial = len(nontrivial)
     chk.exhaustive = False
     chk.rule = ("the probe calls the real exported symbols for n in %s, destination and source misalignment 0..15 (both orders of the "
